@@ -33,13 +33,22 @@ REQUIRED = ["Sqfs.C19." + t for t in (
     "no_leak", "copy_then_release_restores", "refcount_invariant_reading", "refcount_exact", "exH_balanced", "exHX_balanced", "copy_equiv", "copy_same_buffer_sizes", "copy_independent", "copy_buffers_disjoint", "constructed_balanced", "grab_balanced",
     "copy_equiv_idTable", "copy_equiv_fragTable", "copy_fail_restores", "ops_release_safe", "copy_independent_mixed",
     "copy_equiv_dataReader", "copy_equiv_metaReader", "table_fill_is_adds", "envHeap_balanced",
-    "rbtree_copy_equiv", "rbtree_built_wellformed", "copy_equiv_dirCache", "array_copy_equiv", "strtable_copy_equiv")]
+    "rbtree_copy_equiv", "rbtree_built_wellformed", "copy_equiv_dirCache", "array_copy_equiv", "strtable_copy_equiv",
+    "rbtree_pool_copy_independent", "copy_equiv_dataReaderX", "copy_independent_interleaved", "copy_independent_projection", "copy_equiv_deep")]
 COMPS = ["gzip", "xz", "lzma", "lz4", "zstd"]
 ENV_KINDS = ("meta", "dir", "data", "xattr")
-WRAP = "-Wl,--wrap=malloc,--wrap=calloc,--wrap=realloc,--wrap=dup,--wrap=deflateInit2_,--wrap=inflateInit_,--wrap=ZSTD_createCCtx"
+WRAP = "-Wl,--wrap=malloc,--wrap=calloc,--wrap=realloc,--wrap=dup,--wrap=deflateInit2_,--wrap=inflateInit_,--wrap=ZSTD_createCCtx,--wrap=mmap"
 # memcpy(NULL, NULL, 0) in array_init_copy of an empty array is flagged by UBSan's nonnull-attribute check; it is
 # harmless on every libc and not what C19 is about, so that one check is off for this property's builds.
 LIBFLAGS = ["-fno-sanitize=nonnull-attribute"]
+
+
+def zs(*ls):
+    """zip of streams that must be equally long: anything else is a failure of the check's infrastructure"""
+    ls = [list(l) for l in ls]
+    if len(set(len(l) for l in ls)) > 1:
+        raise vlib.CheckFailure("internal: zip of streams of unequal length %s" % [len(l) for l in ls])
+    return zip(*ls)
 
 
 # --------------------------------------------------------------------------------------------- environment
@@ -48,6 +57,18 @@ def build(ctx):
     harness = ctx.cc("h_c19", ["h_c19.c"], flags=LIBFLAGS, libs=[str(lib)] + vlib.CODEC_LIBS + [WRAP])
     gen = ctx.build_tool("gensquashfs", tag="c19", flags=LIBFLAGS)
     return harness, gen
+
+
+def build_pool(ctx):
+    """/repo's DEFAULT configuration (pool allocator: NO_CUSTOM_ALLOC not defined, mempool.c compiled): the harness once under
+    ASan+UBSan+LSan, once uninstrumented (nothing between the code and the kernel's munmap; use-after-release canary).
+    mempool.c is #include'd by the harness (it looks into the pools), so it stays out of the archives."""
+    out = {}
+    for tag, san in (("c19p", True), ("c19pu", False)):
+        lib = ctx.build_lib(tag, flags=LIBFLAGS if san else [], sanitize=san, custom_alloc=True, exclude=("lib/util/src/mempool.c",))
+        out["asan" if san else "plain"] = ctx.cc("h_" + tag, ["h_c19.c"], flags=(LIBFLAGS if san else []) + ["-UNO_CUSTOM_ALLOC"], sanitize=san,
+                                                 libs=[str(lib)] + vlib.CODEC_LIBS + [WRAP])
+    return out
 
 
 def tree_files(r, B):
@@ -163,6 +184,11 @@ CACHE_ENDINGS = {
     "short-then-fragment": ["read /short.bin 0 100", "read /frag2.bin 0 10"],
     "fragment-full-short": ["read /frag3.bin 100 50", "read /full.bin 0 8192", "read /short.bin 10 50"],
     "full-then-fragment": ["read /full.bin 0 100", "frag /frag3.bin"],
+    # the other entry points that touch the caches (C10's OpX): a stream whose tail comes out of the fragment cache, and a reload
+    # of the fragment table (drops the cached fragment block) followed by a fragment access
+    "stream-tail": ["stream /d1/d2/tail.bin 9", "read /short.bin 0 10"],
+    "reload-then-fragment": ["frag /frag2.bin", "read /full.bin 0 10", "reload", "stream /frag3.bin 2"],
+    "reload-only": ["read /small.txt 0 10", "reload"],
 }
 PATHS_D = ["/", "/d1", "/d1/d2", "/e", "/nope", "/small.txt"]
 # directory readers: (directories, other paths, (start directory, relative path) pairs, inode numbers worth asking for) per image family
@@ -219,7 +245,8 @@ def gen_op(r, kind, sizes):
     if kind == "data":
         p = r.choice(PATHS_F)
         return r.choice(["read %s %d %d" % (p, r.choice([0, 1, 100, 8000, 8192, 8193, 16384, 20000, 30000]), r.choice([1, 100, 5000, 9000, 40000])),
-                         "read %s %d %d" % (p, r.randint(0, 30000), r.randint(1, 20000)), "block %s %d" % (p, r.randint(0, 4)), "frag " + p])
+                         "read %s %d %d" % (p, r.randint(0, 30000), r.randint(1, 20000)), "block %s %d" % (p, r.randint(0, 4)), "frag " + p,
+                         "stream %s %d" % (p, r.choice([1, 2, 3, 9])), r.choice(["reload", "frag " + p])])
     if kind == "xattr":
         top = sizes.get("xattr_ids", 4)
         pick = lambda: r.choice([0, top - 1, top, r.randint(0, top), r.randint(max(0, top - 100), top)]) if top > 4 else r.randint(0, 4)
@@ -261,6 +288,17 @@ def gen_xwr_shared(r):
     return out
 
 
+# forced compressor configurations (`<name>!`, `<name>!2`: compress; `<name>!u`: uncompress): level, gzip window, flags, then key=value
+FORCED_CFG = {
+    "gzip": [" 1 9 -", " 9 12 0x1f bs=131072"],
+    "xz": [" 1 - - dict=65536 lc=1 lp=2 pb=0", " 6 - 0x101 dict=12288 lc=0 lp=0 pb=4 bs=16384"],          # 0x101: x86 filter + extreme
+    "lzma": [" 1 - - dict=65536 lc=1 lp=2 pb=0", " 5 - 1 dict=12288 lc=4 lp=0 pb=1 bs=16384"],
+    "lz4": [" - - 1", " - - - bs=131072"],
+    "zstd": [" 2 - -", " 19 - - bs=16384"],
+}
+FORCED_U = {"gzip": " 3 - 0x0a", "xz": " 2 - 0x08 dict=16384 lc=2 lp=1 pb=1", "lzma": " 2 - 1 dict=16384 lc=2 lp=1 pb=1", "lz4": " - - 1 bs=16384", "zstd": " 7 - -"}
+
+
 class Scenario:
     def __init__(self, tag, kind, args, model_kind):
         self.tag, self.kind, self.args, self.model_kind = tag, kind, args, model_kind
@@ -300,20 +338,28 @@ def gen_scenario(ctx, tag, kind, imgs, sizes, variant=None):
     ending = None
     forced = False
     if kind == "comp":
-        forced = bool(variant) and variant.endswith("!")
-        name = (variant or r.choice(COMPS)).rstrip("!")
-        mode = "c" if forced else r.choice("ccu")
+        forced = bool(variant) and "!" in variant
+        name, _, fv = (variant or r.choice(COMPS)).partition("!")
+        mode = ("u" if fv == "u" else "c") if forced else r.choice("ccu")
         cfg = ""
         if forced:
-            # a configuration far from the defaults, and (below) level-sensitive data through the copy right after the copy:
-            # a copy hook that re-creates codec state from anything but the original's options compresses differently
-            cfg = {"gzip": " 1 9 -", "xz": " 1 - -", "lzma": " 1 - -", "lz4": " - - 1", "zstd": " 2 - -"}[name]
-        elif mode == "c" and r.random() < 0.7:
-            # non-default configuration: the copy must compress with the original's level / window / strategy flags
+            # configurations far from the defaults on every axis the compressor has (level, window, strategy / filter flags,
+            # dictionary size, lc/lp/pb, block size), in both modes, and (below) option-sensitive data through the copy right
+            # after the copy: a copy hook that re-creates its state from anything but the original's options answers differently,
+            # and the probe compares every option field
+            cfg = FORCED_U[name] if fv == "u" else FORCED_CFG[name][int(fv or 1) - 1]
+        elif r.random() < 0.7:
+            # non-default configuration: the copy must work with the original's options
             level = {"gzip": r.randint(1, 9), "xz": r.randint(0, 6), "lzma": r.randint(0, 6), "lz4": "-", "zstd": r.randint(1, 19)}[name]
-            window = r.randint(9, 15) if name == "gzip" else "-"
-            flags = {"gzip": r.choice(["-", "-", 0x03, 0x1f]), "lz4": r.choice(["-", 1]), "lzma": r.choice(["-", 1])}.get(name, "-")
+            window = r.randint(9, 15) if name == "gzip" and mode == "c" else "-"
+            flags = {"gzip": r.choice(["-", "-", 0x03, 0x1f]), "lz4": r.choice(["-", 1]), "lzma": r.choice(["-", 1]),
+                     "xz": r.choice(["-", 0x01, 0x02, 0x08, 0x20, 0x100, 0x110])}.get(name, "-")
             cfg = " %s %s %s" % (level, window, flags)
+            if name in ("xz", "lzma") and r.random() < 0.7:
+                lc = r.randint(0, 4)
+                cfg += " dict=%d lc=%d lp=%d pb=%d" % (r.choice([8192, 12288, 16384, 65536, 1 << 20]), lc, r.randint(0, 4 - lc), r.randint(0, 4))
+            if r.random() < 0.3:
+                cfg += " bs=%d" % r.choice([16384, 65536, 131072])
         args, mk = "comp %s %s%s" % (name, mode, cfg), name
     elif kind in ("idtable", "fragtable"):
         args, mk = kind, kind
@@ -325,6 +371,8 @@ def gen_scenario(ctx, tag, kind, imgs, sizes, variant=None):
         args, mk = "file %s" % imgs["gzip"], "file"
     elif kind == "wfile":
         args, mk = "wfile %s" % ctx.scratch, "file"
+    elif kind == "nocopy":
+        args, mk = "nocopy %s" % imgs["gzip"], "file"
     else:
         ending = None
         if kind == "data" and variant and variant.startswith("cache:"):
@@ -342,16 +390,18 @@ def gen_scenario(ctx, tag, kind, imgs, sizes, variant=None):
             sizes = dict(sizes, dirset="bigino" if variant == "bigino" else "std")
     s = Scenario(tag, kind, args, mk)
     s.damaged = damaged
-    if kind == "wfile":
-        # the copy hook of a file opened for writing refuses: sqfs_copy returns NULL, nothing changes, nothing leaks
-        for op in ["size", "read 0 16", "read 4 8"][:r.randint(0, 3)]:
+    if kind in ("wfile", "nocopy"):
+        # the copy hook of a file opened for writing refuses: sqfs_copy returns NULL, nothing changes, nothing leaks;
+        # `nocopy`: an object whose copy hook is NULL (an input stream): sqfs_copy must test the pointer and return NULL
+        wops = ["size", "read 0 16", "read 4 8", "size", "read 1 15"] if kind == "wfile" else ["peek 4", "peek 16", "peek 1", "peek 8", "peek 20"]
+        for op in wops[:3][:r.randint(0, 3)]:
             i = s.op("o", op); j = s.op("t1", op); k = s.op("t2", op)
             s.pairs += [(i, j), (i, k)]
         s.ctl("views")
         s.copy_at = len(s.lines)
         s.ctl("copy")
         s.ctl("views")
-        for op in ["size", "read 1 15"]:
+        for op in wops[3:]:
             i = s.op("o", op); j = s.op("t1", op)
             s.pairs.append((i, j))
         s.ctl("drop o")
@@ -371,6 +421,13 @@ def gen_scenario(ctx, tag, kind, imgs, sizes, variant=None):
         i = s.op("o", op)
         j = s.op("t1", op); k = s.op("t2", op)
         s.pairs += [(i, j), (i, k)]
+    xwr_open = kind == "xwr" and (variant == "open" or (variant is None and r.random() < 0.25))
+    s.xwr_open = xwr_open
+    if xwr_open:
+        for op in ["begin"] + ["add %s %s" % (hexs(r.choice([b"user.a", b"user.open", b"trusted.x"])), hexs(r.choice([b"", b"1", b"open value " * 3]))) for _ in range(r.randint(0, 2))]:
+            i = s.op("o", op)
+            j = s.op("t1", op); k = s.op("t2", op)
+            s.pairs += [(i, j), (i, k)]
     if kind == "data" and not damaged and ending:
         for op in CACHE_ENDINGS[ending]:
             i = s.op("o", op)
@@ -408,6 +465,11 @@ def gen_scenario(ctx, tag, kind, imgs, sizes, variant=None):
         s.ctl("grab c"); extra["c"] += 1
     alive = {"o": True, "c": True}
     env_dropped = False
+    if kind == "xwr" and xwr_open:
+        # the copy was made inside an open begin/end block: both go on recording into it and close it
+        for op in ["add %s %s" % (hexs(b"user.late"), hexs(b"v" * r.choice([1, 9, 30]))), "end"]:
+            ic = s.op("c", op); j = s.op("t2", op); io = s.op("o", op); k = s.op("t1", op)
+            s.pairs += [(ic, j), (io, k), (ic, io)]
     if kind == "xwr":
         # same recorded state: original, copy and twins must flush the same bytes
         i = s.op("o", "flush"); j = s.op("c", "flush"); k = s.op("t1", "flush"); l = s.op("t2", "flush")
@@ -438,15 +500,43 @@ def gen_scenario(ctx, tag, kind, imgs, sizes, variant=None):
             s.pairs.append((i, j))
             s.fresh(first, i)
             s.ctl("views")
+    # questions that succeed on every image, to copy and original while both are alive (so that "the copy answered like its twin"
+    # is about real answers for every kind, not about equal error codes)
+    sure = {"meta": ["seek 0 0", "read 16", "read 100", "pos"], "xattr": ["desc 0", "readall 0", "first 0", "readall 1"], "dir": ["list /", "resolve /"],
+            "fragtable": ["size", "lookup 0"], "file": ["size", "read 0 96"]}.get(kind, []) if not damaged else []
+    for op in sure:
+        ic = None
+        for t, tw in (("c", "t2"), ("o", "t1")):
+            i = s.op(t, op); j = s.op(tw, op)
+            s.pairs.append((i, j))
+            if t == "c":
+                ic = i
+            elif kind == "meta":
+                s.pairs.append((ic, i))               # both were positioned by the same seek
+        s.ctl("views")
     post = hist_ops(r.choice([1, 3, 6, 12]))
     if kind == "xwr":
         post = post + ["flush"] * 2
     # events: operations and releases, interleaved; both release orders arise from the shuffle
-    events = [("op", x) for x in post] + [("drop", "o"), ("drop", "c")] + ([("env", None)] if kind in ENV_KINDS and r.random() < 0.5 else [])
+    # one event = one operation; xattr writer: one complete begin … end block (or a flush) on one object — a block is never
+    # split between original and copy, nothing is copied or released inside an open block (except the deliberate `open` variant)
+    groups, cur = [], []
+    for x in post:
+        cur.append(x)
+        if kind != "xwr" or x in ("end", "flush"):
+            groups.append(cur); cur = []
+    if cur:
+        groups.append(cur)
+    events = [("op", g) for g in groups] + [("drop", "o"), ("drop", "c")] + ([("env", None)] if kind in ENV_KINDS and r.random() < 0.5 else [])
+    # a copy of the copy takes the copy's place; one more copy of either is made and released while both are alive
+    if r.random() < 0.35:
+        events.insert(r.randint(0, len(groups)), ("ctl", "recopy"))
+    if r.random() < 0.35:
+        events.insert(r.randint(0, len(groups)), ("ctl", "copydrop " + r.choice("oc")))
     if r.random() < 0.7:
         # keep the releases towards the end most of the time, so that most operations see both objects alive
-        ops_e = [e for e in events if e[0] == "op"]
-        rest = [e for e in events if e[0] != "op"]
+        ops_e = [e for e in events if e[0] in ("op", "ctl")]
+        rest = [e for e in events if e[0] not in ("op", "ctl")]
         r.shuffle(rest)
         cut = r.randint(len(ops_e) // 2, len(ops_e))
         tail = ops_e[cut:] + rest
@@ -460,12 +550,18 @@ def gen_scenario(ctx, tag, kind, imgs, sizes, variant=None):
             if not who:
                 continue
             t = r.choice(who)
-            i = s.op(t, x, marked(x))
-            j = s.op("t1" if t == "o" else "t2", x)
-            s.pairs.append((i, j))
-            if not env_dropped:
-                s.fresh(x, i)
-            s.ctl("views")
+            for y in x:
+                i = s.op(t, y, marked(y))
+                j = s.op("t1" if t == "o" else "t2", y)
+                s.pairs.append((i, j))
+                if not env_dropped:
+                    s.fresh(y, i)
+                s.ctl("views")
+        elif ev == "ctl":
+            # (after `dropenv` the shared file / compressor live only through the readers: still copyable)
+            if alive["c"] and (extra["c"] == 0 if x == "recopy" else alive[x.split()[1]]):
+                s.ctl(x)
+                s.ctl("views")
         elif ev == "drop":
             while extra[x] > 0:
                 s.ctl("ungrab " + x); extra[x] -= 1
@@ -500,9 +596,11 @@ def failcopy_variant(base, k, tag):
 
 
 # --------------------------------------------------------------------------------------------- running
-def run_harness(ctx, harness, scenarios, jobs=6):
+def run_harness(ctx, harness, scenarios, jobs=6, sanitized=True):
     """returns list of (answers:list[str], exit:list[str])"""
     env = ctx.san_env({"ASAN_OPTIONS": "detect_leaks=1:abort_on_error=0:exitcode=99:allocator_may_return_null=1"})
+    if not sanitized:
+        env["MALLOC_PERTURB_"] = "165"          # glibc: freed memory is overwritten (uninstrumented build: stale reads show)
     chunks = [scenarios[i::jobs] for i in range(jobs)]
 
     def work(ch):
@@ -519,7 +617,9 @@ def run_harness(ctx, harness, scenarios, jobs=6):
                 cur.append(l)
         if len(res) != len(ch) or p.returncode != 0 or cur:
             raise vlib.CheckFailure("harness produced %d results for %d scenarios (rc=%s, %d stray lines): %s" % (len(res), len(ch), p.returncode, len(cur), p.stderr[-500:]))
-        for (ans, ex), sc in zip(res, ch):
+        for (ans, ex), sc in zs(res, ch):
+            if ex[0] == "ok" and len(ans) != len(sc.lines) + 1:
+                raise vlib.CheckFailure("scenario %s (%s) ended normally but answered %d lines for %d" % (sc.tag, sc.args.split()[0], len(ans), len(sc.lines) + 1))
             if any(a == "bad-op" for a in ans):
                 raise vlib.CheckFailure("harness did not understand a line of scenario %s (%s): %r" % (sc.tag, sc.args.split()[0], [l for l, a in zip(sc.lines, ans) if a == "bad-op"][:3]))
         return res
@@ -574,7 +674,7 @@ def run_model(ctx, mode, scenarios, shapes, fail_at=None):
             cur.append(l)
     if len(res) != len(scenarios) or cur:
         raise vlib.CheckFailure("model driver produced %d results for %d scenarios (%d stray lines)" % (len(res), len(scenarios), len(cur)))
-    for (ans, ex), sc in zip(res, scenarios):
+    for (ans, ex), sc in zs(res, scenarios):
         if len(ans) != len(sc.mlines) + 2:
             raise vlib.CheckFailure("model driver answered %d lines for %d of scenario %s" % (len(ans), len(sc.mlines) + 2, sc.tag))
         if any(a == "bad-op" for a in ans):
@@ -582,7 +682,7 @@ def run_model(ctx, mode, scenarios, shapes, fail_at=None):
     return res
 
 
-CTL = ("copy", "failcopy", "drop", "grab", "ungrab", "rcs", "dropenv")
+CTL = ("copy", "failcopy", "drop", "grab", "ungrab", "rcs", "dropenv", "recopy", "copydrop")
 TARGETS = ("o", "c", "t1", "t2")
 
 
@@ -696,7 +796,8 @@ def judge(ctx, s, hres, var, stats):
     cl = lambda ans: next((norm_ctl(l) for l in ans if l.startswith("copy ok")), None)
     hp = cl(hans)
     if getattr(s, "expect_null", False) and hp is not None:
-        return ("wfile:copied", "sqfs_copy of a file opened for writing returned an object (stdio_copy must refuse: the copy would share the write position / truncate state)", True)
+        return ("%s:copied" % s.kind, "sqfs_copy of %s returned an object" % ("a file opened for writing (stdio_copy must refuse: the copy would share the write position / truncate state)"
+                                                                             if s.kind == "wfile" else "an object whose copy hook is NULL"), True)
     # the model of the hooks this tree has: the first variant whose fresh copy shows the facts the probe shows; without
     # a probe (failed copy) the first variant that explains the run
     if hp is not None:
@@ -745,9 +846,9 @@ def judge(ctx, s, hres, var, stats):
     return ("corr:%s" % s.kind, "%s: model and code disagree without observable misbehaviour (repaired: %s; current: %s)" % (s.kind, why_main, why_cur) + tail, False)
 
 
-def replay_dict(ctx, s, hres):
+def replay_dict(ctx, s, hres, label=""):
     tmp = str(ctx.scratch)
-    return {"scenario": s.text(), "kind": s.kind, "args": s.args, "answers": [a[:300] for a in hres[0][-12:]], "exit": hres[1],
+    return {"scenario": s.text(), "kind": s.kind, "args": s.args, "answers": [a[:300] for a in hres[0][-12:]], "exit": hres[1], "config": "pool" if label else "malloc",
             "entry": {"kind": s.kind, "args": s.args.replace(tmp, "$TMP"), "model_kind": s.model_kind, "lines": s.lines, "mlines": s.mlines,
                       "pairs": [list(p) for p in s.pairs], "copy_at": s.copy_at, "failcopy": s.failcopy,
                       "shape": getattr(s, "fixed_shape", None), "base_probe": getattr(s, "base_probe", None)},
@@ -773,7 +874,7 @@ def evaluate(ctx, harness, scs):
 
 def evaluate_models(ctx, scs, res):
     shapes = []
-    for s, (hans, hexit) in zip(scs, res):
+    for s, (hans, hexit) in zs(scs, res):
         pl = next((l for l in hans if l.startswith("copy ok")), None)
         probe = parse_probe(pl) if pl else getattr(s, "base_probe", None)
         shapes.append(shape_of(probe) if probe else (getattr(s, "fixed_shape", None) or "shape - - -"))
@@ -790,6 +891,233 @@ def evaluate_models(ctx, scs, res):
                         var[n][i] = a[k]
                         break
     return res, [{n: var[n][i] for n, _ in VARIANTS} for i in range(len(scs))]
+
+
+MMAP_LEAK = "failcopy-mmap:leak"
+
+
+def mmap_leak_only(s, hr):
+    """pool configuration: the injected failure hit the mmap inside mem_pool_allocate, sqfs_copy returned NULL, every answer
+    is fine and the only complaint is LeakSanitizer's at exit: rbtree_copy's failure branch forgets the pool it created"""
+    hans, hexit = hr
+    return bool(s.failcopy) and hexit[0] == "leak" and s.copy_at < len(hans) and hans[s.copy_at].startswith("copy NULL") and "failed=mmap" in hans[s.copy_at]
+
+
+def run_histories(ctx, harness, scs, label):
+    """scenarios through the real objects of one build of the harness and through the models: successful copies, then
+    every k-th acquisition inside sqfs_copy failing, classification.  `label` prefixes the keys ("" = the plain-malloc
+    configuration, "pool:" = /repo's default configuration)."""
+    hres = run_harness(ctx, harness, scs)
+    # allocation-failure variants: every k up to the number of acquisitions (memory, descriptor, codec state, pool block) the
+    # successful copy made — all of them (quick tier too: which failure path leaks must not depend on the seed); for copies
+    # with very many allocations (xattr writer with many strings) the first six, the last two and two in between
+    fscs = []
+    for s, (hans, hexit) in zs(scs, hres):
+        cl = hans[s.copy_at] if s.copy_at is not None and s.copy_at < len(hans) else ""
+        m = re.search(r"allocs=(\d+)", cl)
+        if not m or not cl.startswith("copy ok"):
+            continue
+        n = int(m.group(1))
+        ks = list(range(1, n + 1))
+        if len(ks) > 10:
+            ks = ks[:6] + sorted(ctx.rng.sample(ks[6:-2], 2)) + ks[-2:]
+        for k in ks:
+            f = failcopy_variant(s, k, "%sf%d" % (s.tag, k))
+            f.base_probe = parse_probe(cl)
+            fscs.append(f)
+    if not fscs:
+        raise vlib.CheckFailure("%sno allocation-failure variant could be derived (no successful copy?)" % label)
+    fres = run_harness(ctx, harness, fscs)
+    ctx.log("%s%d scenarios, %d allocation-failure variants run" % (label, len(scs), len(fscs)))
+    # every injected failure made the k-th acquisition inside sqfs_copy fail (the wrapper counted k calls or more in the
+    # successful run): a hook that still hands out an object ignored the failure
+    ignored = {}
+    for f, hr in zs(fscs, fres):
+        hans = hr[0]
+        if f.copy_at < len(hans) and hans[f.copy_at].startswith("copy ok"):
+            ignored[f.kind] = ignored.get(f.kind, 0) + 1
+            if ignored[f.kind] <= 2:
+                ctx.violation("%s%s:failcopy:ignored-failure" % (label, f.kind), "%s: acquisition %d inside sqfs_copy failed (allocation / dup / codec state / pool block) and the hook "
+                              "still returned an object: `%s` [scenario %s]" % (f.kind, f.failcopy, hans[f.copy_at][:200], f.tag), replay_dict(ctx, f, hr, label), found_input=True)
+    allsc = scs + fscs
+    allres = hres + fres
+    # the models (hooks repaired / partly repaired / current) on the same scripts.  Allocation-failure variants: the k-th
+    # real allocation corresponds to *some* failing step of the hook's model (one model step may stand for several real
+    # allocations), so the model is run for every failing step and the real outcome must be explained by one of them
+    _, allvar = evaluate_models(ctx, allsc, allres)
+    stats = {"outcomes": {}, "kinds": {}, "findings": {}}
+    pair_checks = 0
+    view_checks = 0
+    for idx, (s, hr) in enumerate(zs(allsc, allres)):
+        stats["kinds"][s.kind] = stats["kinds"].get(s.kind, 0) + 1
+        pair_checks += sum(1 for i, j in s.pairs if i < len(hr[0]) and j < len(hr[0]))
+        view_checks += len(view_relations(s, hr[0]))
+        if label and mmap_leak_only(s, hr) and not divergences(s, hr):
+            v = ("%s:%s" % (s.kind, MMAP_LEAK), "%s, default configuration (pool allocator): the mmap of a pool block fails inside sqfs_copy (acquisition %d); the hook returns NULL "
+                 "but the pool that rbtree_copy had just created is never destroyed (rbtree.c: failure branch of rbtree_copy clears `out` without mem_pool_destroy): leak [scenario %s]" % (
+                     s.kind, s.failcopy, s.tag), True)
+            stats["outcomes"]["leak"] = stats["outcomes"].get("leak", 0) + 1
+        else:
+            v = judge(ctx, s, hr, allvar[idx], stats)
+        if v:
+            key, what, found = v
+            key = label + key
+            stats["findings"][key] = stats["findings"].get(key, 0) + 1
+            fk = key + ("+" if found else "-")
+            stats.setdefault("reported", {})[fk] = stats.setdefault("reported", {}).get(fk, 0) + 1
+            if stats["reported"][fk] <= 2:
+                ctx.violation(key, what, replay_dict(ctx, s, hr, label), found_input=found)
+    return {"hres": hres, "fscs": fscs, "fres": fres, "allsc": allsc, "allres": allres, "stats": stats, "pair_checks": pair_checks, "view_checks": view_checks}
+
+
+
+# --------------------------------------------------------------------------------------------- /repo's default configuration (pool allocator)
+def gen_pool_units(ctx, us):
+    """the rbt units of the main run (same histories: copy, lookups, independent inserts, release of one, use of the other) and
+    failures of the two acquisitions rbtree_copy makes in this configuration: 1 = calloc of the mem_pool_t, 2 = mmap of the
+    pool's first block"""
+    r, q = ctx.rng, ctx.quick()
+    pus = [u for u in us if u.kind == "rbt" and not any(l.startswith("failcopy") for l in u.lines)]
+    for i in range(12 if q else 120):
+        ks, vs = [(4, 8), (40, 4), (r.randint(1, 17), r.randint(0, 24))][i % 3]
+        u = gen_rbt_unit(r, "rpf%d" % i, ks, vs, 5 if q else 8, fail=True)
+        u.lines = [("failcopy %d" % (1 + (i // 3) % 2)) if l.startswith("failcopy") else l for l in u.lines]
+        pus.append(u)
+    return pus
+
+
+def gen_big_units(ctx):
+    """trees of several thousand nodes (several blocks of a pool): copy, node-for-node comparison, every key looked up in
+    copy and original, release of one, every key looked up in the other.  Not predicted by the model (exercised only)."""
+    r, out = ctx.rng, []
+    for i, (ks, vs, n) in enumerate([(4, 8, 5000), (40, 4, 2500)] + ([] if ctx.quick() else [(r.randint(4, 17), r.randint(1, 24), 6000)])):
+        u = Unit("big%d" % i, "rbt", "rbt %d %d" % (ks, vs))
+        seed = r.randint(0, 1 << 30)
+        u.n, u.ks = n, ks
+        first = r.choice("oc")
+        rest = "c" if first == "o" else "o"
+        for l in ("o bulk %d %d" % (n, seed), "copy", "c cmpcopy", "c verify %d %d" % (n, seed), "o verify %d %d" % (n, seed), "drop " + first,
+                  "%s verify %d %d" % (rest, n, seed), "drop " + rest):
+            u.add(l)
+        out.append(u)
+    return out
+
+
+def check_big_units(ctx, us, hres, pool, label):
+    if len(us) != len(hres):
+        raise vlib.CheckFailure("big units: %d scenarios, %d results" % (len(us), len(hres)))
+    n_ok = 0
+    for u, (hans, hexit) in zs(us, hres):
+        pad = (u.ks + 7) // 8 * 8
+        exp = ["bulk 0 %d" % u.n, "copy 0 kp=%d alias=0%s" % (pad, " pool=own nodes=in" if pool else ""),
+               "cmpcopy same=1 n=%d%s" % (u.n, " nodes=in blocks=many" if pool else ""), "verify %d" % u.n, "verify %d" % u.n, "drop", "verify %d" % u.n, "drop", "fds-at-end +0"]
+        if hans != exp or hexit[0] != "ok":
+            i = next((j for j, (a, b) in enumerate(zip(hans, exp)) if a != b), min(len(hans), len(exp)))
+            ctx.violation(label + "unit:rbt-big", "rbtree_copy of a tree of %d nodes (%s)%s: line %d `%s` answers `%s`, expected `%s`; exit %s" % (
+                u.n, u.args, ", default configuration (pool allocator)" if pool else "", i, u.lines[i] if i < len(u.lines) else "end", hans[i][:200] if i < len(hans) else "<nothing>",
+                exp[i] if i < len(exp) else "<nothing>", " ".join(hexit)[:200]),
+                {"scenario": u.text(), "answers": hans[:12], "exit": hexit, "config": "pool" if pool else "malloc"}, found_input=True)
+        else:
+            n_ok += 1
+    return n_ok
+
+
+def norm_cross(l):
+    """an answer line reduced to what the sanitized and the uninstrumented build of the same configuration must both print"""
+    w = l.split()
+    if w and w[0] == "copy" and len(w) > 1 and w[1] == "ok":
+        p = parse_probe(l)
+        return "copy ok " + " ".join("%s=%s" % (k, p.get(k, "")) for k in ("rc", "destroy", "copy", "samehooks", "refs", "self")) + " " + " ".join(x for x in w if x.startswith(("pool=", "nodes=")))
+    if w and w[0] in ("copy", "rcs"):
+        return norm_ctl(l)
+    if w and w[0] == "views":
+        return "views"
+    return l
+
+
+def run_pool(ctx, hp, scs, us):
+    """The directory-reader and xattr-writer histories (the two kinds that own an rbtree) and the rbtree units again, against
+    /repo's DEFAULT configuration: under ASan/LSan with the pool allocator, and uninstrumented with the use-after-release
+    canary.  Returns (coverage dict, floor problems, the large-tree units)."""
+    pscs = [s for s in scs if s.kind in ("dir", "xwr")]
+    H = run_histories(ctx, hp["asan"], pscs, "pool:")
+    phres = H["hres"]
+    st = {"scenarios": len(H["allsc"]), "alloc_failure_variants": len(H["fscs"]), "copies_with_pool_facts": 0, "dir_copies_with_cached_inodes": 0, "xwr_copies_with_blocks": 0,
+          "failed_by_mmap": {"dir": 0, "xwr": 0}, "real_outcomes": H["stats"]["outcomes"], "classified": H["stats"]["findings"]}
+    reported = 0
+    for s, (hans, _) in zs(pscs, phres):
+        cl = hans[s.copy_at] if s.copy_at is not None and s.copy_at < len(hans) else ""
+        if not cl.startswith("copy ok"):
+            continue
+        owns_tree = s.kind == "xwr" or (int(s.args.split()[-1]) & 1) == 1
+        if owns_tree != (" pool=" in cl):
+            raise vlib.CheckFailure("pool build: scenario %s (%s): pool facts %s on the copy line `%s`" % (s.tag, s.args, "missing" if owns_tree else "unexpected", cl[:200]))
+        if not owns_tree:
+            continue
+        st["copies_with_pool_facts"] += 1
+        bufs = parse_probe(cl).get("bufs", "").split(",")
+        nonempty = bufs[0 if s.kind == "dir" else 3] != "null"
+        st["dir_copies_with_cached_inodes" if s.kind == "dir" else "xwr_copies_with_blocks"] += nonempty
+        if not cl.endswith(" pool=own nodes=in"):
+            reported += 1
+            if reported <= 2:
+                ctx.violation("pool:%s:ownership" % s.kind, "%s, default configuration: the tree of a fresh copy does not live in a pool of the copy's own (`%s`): it dies with the original [scenario %s]" % (
+                    s.kind, cl[cl.index(" pool="):], s.tag), replay_dict(ctx, s, (hans, ["-"]), "pool:"), found_input=True)
+    for f, (hans, _) in zs(H["fscs"], H["fres"]):
+        if f.copy_at < len(hans) and "failed=mmap" in hans[f.copy_at]:
+            st["failed_by_mmap"][f.kind] += 1
+    cbad, cst = check_copystate(ctx, pscs, phres, floors=False)
+    for s, field, inv, differs in cbad[:3]:
+        ctx.violation("pool:copystate:%s" % s.kind, "%s, default configuration: the state of the real copy is not what rbCopy yields on the real original's state (first difference: %s)" % (s.kind, field),
+                      replay_dict(ctx, s, phres[pscs.index(s)], "pool:"), found_input=differs)
+    st["copystate"] = cst
+    # the same histories, uninstrumented: nothing between the code and munmap; answers as in the sanitized pool build
+    plres = run_harness(ctx, hp["plain"], pscs, sanitized=False)
+    ndiff = 0
+    for s, (ha, ea), (hb, eb) in zs(pscs, phres, plres):
+        why = None
+        if eb[0] != "ok":
+            why = "exit %s" % " ".join(eb)[:200]
+        elif divergences(s, (hb, eb)):
+            why = "answers differ from the identically driven twin: %s" % (divergences(s, (hb, eb))[0],)
+        elif ea[0] == "ok" and [norm_cross(x) for x in ha] != [norm_cross(x) for x in hb]:
+            i = next((j for j, (x, y) in enumerate(zip(ha, hb)) if norm_cross(x) != norm_cross(y)), min(len(ha), len(hb)))
+            why = "line %d `%s`: sanitized build `%s`, uninstrumented build `%s`" % (i, s.lines[i] if i < len(s.lines) else "end", ha[i][:160] if i < len(ha) else "-", hb[i][:160] if i < len(hb) else "-")
+        if why:
+            ndiff += 1
+            if ndiff <= 2:
+                ctx.violation("pool-plain:%s" % s.kind, "%s, default configuration, uninstrumented build with use-after-release canary: %s [scenario %s]" % (s.kind, why, s.tag),
+                              replay_dict(ctx, s, (hb, eb), "pool-plain:"), found_input=True)
+    st["uninstrumented_scenarios"] = len(pscs)
+    st["answer_lines"] = sum(len(hr[0]) for hr in H["allres"]) + sum(len(hr[0]) for hr in plres)
+    # units
+    pus = gen_pool_units(ctx, us)
+    for name, h, san in (("asan", hp["asan"], True), ("plain", hp["plain"], False)):
+        ures = run_harness(ctx, h, pus, sanitized=san)
+        ubad, ustat = check_units(ctx, pus, ures, mode="unit-pool", pool=True)
+        for u, hans, hexit, i, what, found in ubad[:3]:
+            ctx.violation("pool:unit:rbt", "rbtree_copy (%s), default configuration (pool allocator), %s build: %s [scenario %s]" % (u.args, "sanitized" if san else "uninstrumented", what, u.tag),
+                          {"scenario": u.text(), "answers": [a[:300] for a in hans[max(0, i - 3):i + 3]], "exit": hexit, "config": "pool",
+                           "entry": {"unit": True, "pool": True, "kind": u.kind, "args": u.args, "lines": u.lines, "same": [list(p) for p in u.same]}}, found_input=found)
+        for u, hans, hexit in ustat.pop("mmap_leaks")[:1]:
+            ctx.violation("pool:rbt:" + MMAP_LEAK, "rbtree_copy (%s), default configuration: the mmap of the pool's first block fails: SQFS_ERROR_ALLOC is returned and `out` cleared, but the pool "
+                          "created a few lines earlier is never destroyed (LeakSanitizer: %s) [scenario %s]" % (u.args, " ".join(hexit[2:])[:120], u.tag),
+                          {"scenario": u.text(), "answers": hans[-6:], "exit": hexit, "config": "pool",
+                           "entry": {"unit": True, "pool": True, "kind": u.kind, "args": u.args, "lines": u.lines, "same": [list(p) for p in u.same]}}, found_input=True)
+        st["units_" + name] = ustat
+        st["answer_lines"] += ustat["answers"]
+    big = gen_big_units(ctx)
+    st["big_trees_ok"] = {name: check_big_units(ctx, big, run_harness(ctx, h, big, sanitized=san), True, "pool:") for name, h, san in (("asan", hp["asan"], True), ("plain", hp["plain"], False))}
+    floors = []
+    if not (st["dir_copies_with_cached_inodes"] and st["xwr_copies_with_blocks"]):
+        floors.append("pool build: no copy of a directory reader with cached inodes / of an xattr writer with recorded blocks: %s" % st)
+    if not (st["failed_by_mmap"]["dir"] and st["failed_by_mmap"]["xwr"]):
+        floors.append("pool build: no sqfs_copy failed by a failing mmap of a pool block: %s" % st["failed_by_mmap"])
+    for name in ("asan", "plain"):
+        u = st["units_" + name]
+        if not (u["copies_pool_own_nodes_in"] and u["failed_mmap"] and u["failed_copies"] and u["spec_pairs"] and u["rbt_layouts"] >= 17 * 25):
+            floors.append("pool build (%s): unit scenarios evaluated too little: %s" % (name, u))
+    return st, floors, big
 
 
 # --------------------------------------------------------------------------------------------- table machines
@@ -837,7 +1165,7 @@ def check_tables(ctx, harness, scs, hres):
     if len(out) != sum(len(s.lines) + 2 for s in scs):
         raise vlib.CheckFailure("table model answered %d lines, expected %d" % (len(out), sum(len(s.lines) + 2 for s in scs)))
     bad, k, total = [], 0, 0
-    for s, (hans, hexit) in zip(scs, hres):
+    for s, (hans, hexit) in zs(scs, hres):
         m = out[k + 1:k + 1 + len(s.lines)]
         k += len(s.lines) + 2
         if any(x == "bad-op" for x in m):
@@ -863,7 +1191,7 @@ def check_descriptions(ctx, scs, hres):
     """`sqfsmodel c19 describe <kind>` against everything the probe saw in this run, slot by slot; a slot that was NULL in
     every scenario was never checked: that is a failure of the generators, not a pass"""
     seen = {}
-    for s, (hans, _) in zip(scs, hres):
+    for s, (hans, _) in zs(scs, hres):
         pl = next((l for l in hans if l.startswith("copy ok")), None)
         if not pl:
             continue
@@ -898,11 +1226,11 @@ def check_descriptions(ctx, scs, hres):
     return problems, facts
 
 
-def check_copystate(ctx, scs, hres):
+def check_copystate(ctx, scs, hres, floors=True):
     """drCopy / mrCopy of the model applied to the state dumped from the real original must be the state dumped from the
     real copy; the cache invariant (specification) must hold of every real original"""
     pairs = []
-    for s, (hans, _) in zip(scs, hres):
+    for s, (hans, _) in zs(scs, hres):
         if s.kind not in ("data", "meta", "dir") or s.failcopy or s.copy_at is None:
             continue
         io = next((i for i, l in enumerate(s.lines) if l == "dump o" and i < len(hans)), None)
@@ -917,7 +1245,7 @@ def check_copystate(ctx, scs, hres):
         raise vlib.CheckFailure("copystate: %d answers for %d dumps" % (len(out), len(pairs)))
     bad, st = [], {"data": 0, "meta": 0, "dir": 0, "data_block_cached": 0, "frag_block_cached": 0, "short_block_cached": 0,
                    "dir_cache_nodes": 0, "dir_refs_above_2^32": 0, "dir_refs_above_2^36": 0, "dir_without_cache": 0, "dir_empty_cache": 0}
-    for (s, o, c), m in zip(pairs, out):
+    for (s, o, c), m in zs(pairs, out):
         if m == "bad-op":
             raise vlib.CheckFailure("copystate: the model driver could not parse `%s…`" % o[:120])
         st[s.kind] += 1
@@ -942,6 +1270,9 @@ def check_copystate(ctx, scs, hres):
         if m != c + " inv=1":
             field = next((a.split("=")[0] for a, b in zip(m.split(), (c + " inv=1").split()) if a != b), "?")
             bad.append((s, field, "inv=0" if m.endswith("inv=0") else "", (o.replace("dump o ", "dump c ", 1) != c)))
+    if not floors:
+        st["floor_problems"] = []
+        return bad, st
     floors = []
     if st["data"] and not (st["data_block_cached"] and st["frag_block_cached"] and st["short_block_cached"]):
         floors.append("copystate: no copied data reader had a cached data block, a cached fragment block and a short block: %s" % st)
@@ -1115,15 +1446,19 @@ def gen_units(ctx):
     return us
 
 
-def check_units(ctx, us, hres):
+def check_units(ctx, us, hres, mode="unit", pool=False):
     """every answer of a unit scenario against `sqfsmodel c19 unit`; the specification (copy answers / dumps like the
     original right after the copy) evaluated on the real answers first"""
-    out = ctx.driver(["c19", "unit"], "".join(u.text() for u in us))
+    if len(us) != len(hres):
+        raise vlib.CheckFailure("units: %d scenarios, %d results" % (len(us), len(hres)))
+    out = ctx.driver(["c19", mode], "".join(u.text() for u in us))     # `unit-pool`: /repo's default configuration
     if len(out) != sum(len(u.lines) + 2 for u in us):
         raise vlib.CheckFailure("unit model answered %d lines, expected %d" % (len(out), sum(len(u.lines) + 2 for u in us)))
     norm = lambda l: re.sub(r" count=\d+", "", l)        # an array's capacity is not part of what it answers
-    bad, k, stats = [], 0, {"answers": 0, "copies": 0, "failed_copies": 0, "spec_pairs": 0, "rbt_layouts": set(), "rbt_padded_value_tail_nonzero": 0}
-    for u, (hans, hexit) in zip(us, hres):
+    bad, k, stats = [], 0, {"answers": 0, "copies": 0, "failed_copies": 0, "spec_pairs": 0, "rbt_layouts": set(), "rbt_padded_value_tail_nonzero": 0,
+                            "failed_mmap": 0, "copies_pool_own_nodes_in": 0}
+    leaks = []
+    for u, (hans, hexit) in zs(us, hres):
         m = out[k + 1:k + 1 + len(u.lines)]
         k += len(u.lines) + 2
         if any(x == "bad-op" for x in m):
@@ -1134,12 +1469,16 @@ def check_units(ctx, us, hres):
                 stats["spec_pairs"] += 1
                 if norm(hans[i]) != norm(hans[j]) and found is None:
                     found = (i, "right after the copy `%s` -> `%s` but `%s` -> `%s` (copy and original must answer alike)" % (u.lines[i], hans[i][:300], u.lines[j], hans[j][:300]), True)
-        if hexit[0] != "ok" or len(hans) != len(u.lines) + 1 or hans[-1] != "fds-at-end +0":
+        # pool configuration: the mmap inside mem_pool_allocate failed, every answer is fine, LeakSanitizer complains at exit
+        mmleak = pool and hexit[0] == "leak" and len(hans) == len(u.lines) + 1 and hans[-1] == "fds-at-end +0" and any("failed=mmap" in a for a in hans)
+        if (hexit[0] != "ok" and not mmleak) or len(hans) != len(u.lines) + 1 or hans[-1] != "fds-at-end +0":
             found = found or (len(hans), "exit %s after %d of %d lines" % (" ".join(hexit)[:300], len(hans), len(u.lines) + 1), True)
         for i, l in enumerate(u.lines):
             if i >= len(hans):
                 break
             stats["answers"] += 1
+            stats["failed_mmap"] += "failed=mmap" in hans[i]
+            stats["copies_pool_own_nodes_in"] += hans[i].startswith("copy 0") and hans[i].endswith(" pool=own nodes=in")
             if l.startswith(("copy", "failcopy")):
                 stats["copies" if hans[i].startswith("copy 0") else "failed_copies"] += 1
                 if u.kind == "rbt" and hans[i].startswith("copy 0"):
@@ -1150,11 +1489,33 @@ def check_units(ctx, us, hres):
                 found = (i, "`%s` answers `%s`, the model says `%s`" % (l, hans[i][:300], m[i][:300]), False)
         if found:
             bad.append((u, hans, hexit) + found)
+        elif mmleak:
+            leaks.append((u, hans, hexit))
     stats["rbt_layouts"] = len(stats["rbt_layouts"])
+    stats["mmap_leaks"] = leaks
     return bad, stats
 
 
 # --------------------------------------------------------------------------------------------- main
+def selftest(ctx, harnesses):
+    """positive controls, every run: a lost block must be reported as a leak, a read of freed / out-of-bounds heap memory as such
+    (sanitized builds), a read of memory given back with munmap must kill the process (all builds), a clean run must be clean"""
+    for name, h, san in harnesses:
+        want = {"none": ("ok",), "unmapped": ("segv", "signal")}
+        if san:
+            want.update({"leak": ("leak",), "uaf": ("use-after-free",), "overflow": ("heap-overflow",)})
+        us = []
+        for w in want:
+            u = Unit("st_" + w, "selftest", "selftest " + w)
+            u.add("x")                   # (one answer line: `selftest <what>`)
+            us.append(u)
+        for u, (hans, hexit) in zs(us, run_harness(ctx, h, us, sanitized=san)):
+            w = u.args.split()[1]
+            if hexit[0] not in want[w]:
+                raise vlib.CheckFailure("self-test of the %s build: provoked `%s`, classified as `%s` (expected %s): the instrumentation does not see it" % (name, w, " ".join(hexit)[:120], "/".join(want[w])))
+    return {name: "leak, use-after-free, overflow, unmapped, clean" if san else "unmapped, clean" for name, _, san in harnesses}
+
+
 def image_specs(ctx):
     if ctx.quick():
         return [("gzip", 8192), ("xz", 8192), ("gzip", 32768)]
@@ -1172,6 +1533,8 @@ def run(ctx):
         if not lc_ok:
             ctx.violation("proof:C19:leanchecker", "leanchecker rejects the compiled proofs of Sqfs.Props.C19: " + lc_out[-600:], {"leanchecker": lc_out}, found_input=False)
     harness, gen = build(ctx)
+    hp = build_pool(ctx)
+    ctx.cov["instrumentation_selftest"] = selftest(ctx, [("malloc/ASan", harness, True), ("pool/ASan", hp["asan"], True), ("pool/uninstrumented", hp["plain"], False)])
     specs = image_specs(ctx)
     imgs, files = make_images(ctx, gen, specs)
     ikeys = [c if b == 8192 else "%s@%d" % (c, b) for c, b in specs]
@@ -1180,10 +1543,10 @@ def run(ctx):
     scs = []
     plan = []
     for c in COMPS:
-        plan += [("comp", c)] * max(3, per_kind // 4) + [("comp", c + "!")] * (1 if ctx.quick() else 10)
+        plan += [("comp", c)] * max(3, per_kind // 4) + [("comp", c + "!"), ("comp", c + "!2"), ("comp", c + "!u")] * (1 if ctx.quick() else 6)
     for kind in ("idtable", "fragtable", "file", "xwr"):
         plan += [(kind, None)] * per_kind
-    plan += [("wfile", None)] * (3 if ctx.quick() else 20)
+    plan += [("wfile", None)] * (3 if ctx.quick() else 20) + [("nocopy", None)] * (2 if ctx.quick() else 10)
     for kind in ("meta", "dir", "data", "xattr"):
         for k in ikeys:
             n = max(4, per_kind // len(ikeys))
@@ -1198,83 +1561,45 @@ def run(ctx):
     for e in CACHE_ENDINGS:
         for k in ikeys:
             plan += [("data", "cache:%s:%s" % (e, k))] * (1 if ctx.quick() else 6)
-    plan += [("xwr", "shared")] * (6 if ctx.quick() else 80)
+    plan += [("xwr", "shared")] * (6 if ctx.quick() else 80) + [("xwr", "open")] * (3 if ctx.quick() else 40)
     # corpus first
     cdir = vlib.CORPUS / "C19"
     corpus = []
     if cdir.exists():
         for p in sorted(cdir.glob("*.json")):
-            corpus.append(json.loads(p.read_text()))
+            c = json.loads(p.read_text())
+            if not c.get("unit"):                          # (unit entries are replay files of unit findings; the unit generators cover them)
+                corpus.append(c)
     for i, (kind, var) in enumerate(plan):
         scs.append(gen_scenario(ctx, "s%d" % i, kind, imgs, sizes, var))
     for j, c in enumerate(corpus):
         scs.insert(j, scenario_from_entry(ctx, "c%d" % j, c, imgs))
     ctx.log("%d scenarios (%d corpus), harness built; running" % (len(scs), len(corpus)))
-    hres = run_harness(ctx, harness, scs)
-    # allocation-failure variants: every k up to the number of acquisitions (memory, descriptor, codec state) the
-    # successful copy made — all of them (quick tier too: which failure path leaks must not depend on the seed); for copies
-    # with very many allocations (xattr writer with many strings) the first six, the last two and two in between
-    fscs = []
-    for s, (hans, hexit) in zip(scs, hres):
-        cl = hans[s.copy_at] if s.copy_at is not None and s.copy_at < len(hans) else ""
-        m = re.search(r"allocs=(\d+)", cl)
-        if not m or not cl.startswith("copy ok"):
-            continue
-        n = int(m.group(1))
-        ks = list(range(1, n + 1))
-        if len(ks) > 10:
-            ks = ks[:6] + sorted(ctx.rng.sample(ks[6:-2], 2)) + ks[-2:]
-        for k in ks:
-            f = failcopy_variant(s, k, "%sf%d" % (s.tag, k))
-            f.base_probe = parse_probe(cl)
-            fscs.append(f)
-    if not fscs:
-        raise vlib.CheckFailure("no allocation-failure variant could be derived (no successful copy?)")
-    fres = run_harness(ctx, harness, fscs)
-    ctx.log("%d allocation-failure variants run" % len(fscs))
-    # every injected failure made the k-th acquisition inside sqfs_copy fail (the wrapper counted k calls or more in the
-    # successful run): a hook that still hands out an object ignored the failure
-    ignored = {}
-    for f, hr in zip(fscs, fres):
-        hans = hr[0]
-        if f.copy_at < len(hans) and hans[f.copy_at].startswith("copy ok"):
-            ignored[f.kind] = ignored.get(f.kind, 0) + 1
-            if ignored[f.kind] <= 2:
-                ctx.violation("%s:failcopy:ignored-failure" % f.kind, "%s: acquisition %d inside sqfs_copy failed (allocation / dup / codec state) and the hook "
-                              "still returned an object: `%s` [scenario %s]" % (f.kind, f.failcopy, hans[f.copy_at][:200], f.tag), replay_dict(ctx, f, hr), found_input=True)
-    allsc = scs + fscs
-    allres = hres + fres
-    # the models (hooks repaired / partly repaired / current) on the same scripts.  Allocation-failure variants: the k-th
-    # real allocation corresponds to *some* failing step of the hook's model (one model step may stand for several real
-    # allocations), so the model is run for every failing step and the real outcome must be explained by one of them
-    _, allvar = evaluate_models(ctx, allsc, allres)
-    stats = {"outcomes": {}, "kinds": {}, "findings": {}}
-    pair_checks = 0
-    view_checks = 0
-    fresh_checks = sum(1 for s, hr in zip(scs, hres) for i, l in enumerate(s.lines) if l.startswith("f ") and i < len(hr[0]) and not hr[0][i].startswith(("no-object", "fresh-failed")))
-    for idx, (s, hr) in enumerate(zip(allsc, allres)):
-        stats["kinds"][s.kind] = stats["kinds"].get(s.kind, 0) + 1
-        pair_checks += sum(1 for i, j in s.pairs if i < len(hr[0]) and j < len(hr[0]))
-        view_checks += len(view_relations(s, hr[0]))
-        v = judge(ctx, s, hr, allvar[idx], stats)
-        if v:
-            key, what, found = v
-            stats["findings"][key] = stats["findings"].get(key, 0) + 1
-            fk = key + ("+" if found else "-")
-            stats.setdefault("reported", {})[fk] = stats.setdefault("reported", {}).get(fk, 0) + 1
-            if stats["reported"][fk] <= 2:
-                ctx.violation(key, what, replay_dict(ctx, s, hr), found_input=found)
+    H = run_histories(ctx, harness, scs, "")
+    hres, fscs, allsc, allres, stats, pair_checks, view_checks = H["hres"], H["fscs"], H["allsc"], H["allres"], H["stats"], H["pair_checks"], H["view_checks"]
+    fresh_checks = sum(1 for s, hr in zs(scs, hres) for i, l in enumerate(s.lines) if l.startswith("f ") and i < len(hr[0]) and not hr[0][i].startswith(("no-object", "fresh-failed")))
     # operations must have *succeeded* on copies, or equal answers say nothing: per kind, at least one successful answer of
     # the copy after the copy was made
     okpat = {"comp": r"blk [1-9]", "idtable": r"(add|get) 0 ", "fragtable": r"(append|lookup|set) 0", "file": r"read 0 ", "meta": r"read 0 ",
              "dir": r"list 0 [1-9]", "data": r"read [1-9]", "xattr": r"readall 0 [1-9]", "xwr": r"flush 0 "}
     okcount = {k: 0 for k in okpat}
-    for s, (hans, _) in zip(scs, hres):
+    for s, (hans, _) in zs(scs, hres):
         if s.kind in okpat:
             okcount[s.kind] += sum(1 for l, a in zip(s.lines, hans) if l.startswith("c ") and re.match(okpat[s.kind], a))
     for k, v in okcount.items():
-        if v == 0:
-            raise vlib.CheckFailure("no operation on a copied %s object succeeded in this run: the comparison with the twin says nothing" % k)
+        if v < 5:
+            raise vlib.CheckFailure("only %d operations on copied %s objects succeeded in this run: the comparison with the twin says (almost) nothing: %s" % (v, k, okcount))
+    # per compressor and mode (compress / uncompress) and per forced configuration: a successful copy that then worked
+    comp_modes = {}
+    for s, (hans, _) in zs(scs, hres):
+        if s.kind == "comp" and any(a.startswith("copy ok") for a in hans) and any(l.startswith("c ") and re.match(r"blk [1-9]", a) for l, a in zip(s.lines, hans)):
+            w = s.args.split()
+            comp_modes[(w[1], w[2])] = comp_modes.get((w[1], w[2]), 0) + 1
+            comp_modes[(w[1], " ".join(w[3:]) or "default")] = comp_modes.get((w[1], " ".join(w[3:]) or "default"), 0) + 1
+    for c in COMPS:
+        for need in ["c", "u"] + [x.strip() for x in FORCED_CFG[c]] + [FORCED_U[c].strip()]:
+            if not comp_modes.get((c, need)):
+                raise vlib.CheckFailure("no successful, then working copy of a %s compressor in mode / configuration `%s`: %s" % (c, need, sorted(k for k in comp_modes if k[0] == c)))
     # hook descriptions against everything the probe saw
     dprob, dfacts = check_descriptions(ctx, scs, hres)
     for pr in dprob[:3]:
@@ -1290,7 +1615,7 @@ def run(ctx):
     # directory readers: the copies were asked questions whose answer is a reference that does not fit 32 / 36 bits (counted
     # on the twin that mirrors the copy, so that the floor does not depend on the copy being right)
     hi = {"2^32": 0, "2^36": 0, "dots": 0}
-    for s, (hans, _) in zip(scs, hres):
+    for s, (hans, _) in zs(scs, hres):
         if s.kind == "dir":
             for l, a in zip(s.lines, hans):
                 if l.startswith("t2 ") and re.match(r"(inumof|rel|resolve|inum) 0 \d+$", a):
@@ -1310,9 +1635,17 @@ def run(ctx):
         ctx.violation("unit:%s" % u.kind, "%s (%s): %s [scenario %s]" % ({"rbt": "rbtree_copy", "arr": "array_init_copy", "strt": "str_table_copy"}[u.kind], u.args, what, u.tag),
                       {"scenario": u.text(), "answers": [a[:300] for a in hans[max(0, i - 3):i + 3]], "exit": hexit,
                        "entry": {"unit": True, "kind": u.kind, "args": u.args, "lines": u.lines, "same": [list(p) for p in u.same]}}, found_input=found)
+    ustat.pop("mmap_leaks")
     for name in ("answers", "copies", "failed_copies", "spec_pairs", "rbt_padded_value_tail_nonzero"):
         if ustat[name] <= 0:
             floor_problems.append("the unit scenarios evaluated no %s" % name)
+    # /repo's default configuration (pool allocator): directory readers, xattr writers and the rbtree units again
+    pool_cov, pool_floors, big = run_pool(ctx, hp, scs, us)
+    floor_problems += pool_floors
+    pool_cov["big_trees_ok"]["malloc"] = check_big_units(ctx, big, run_harness(ctx, harness, big), False, "")
+    for k, v in pool_cov["big_trees_ok"].items():
+        if v <= 0:
+            floor_problems.append("no large tree was copied and verified in the %s build" % k)
     if ustat["rbt_layouts"] < 17 * 25:
         floor_problems.append("rbtree_copy succeeded for %d of the %d key size x value size layouts" % (ustat["rbt_layouts"], 17 * 25))
     # tables: exact answers
@@ -1322,19 +1655,23 @@ def run(ctx):
     for s, i, a, b in tbad[:3]:
         ctx.violation("tbl:%s" % s.kind, "%s: answer of `%s` is `%s`, the state-machine model says `%s`" % (s.kind, s.lines[i], a, b),
                       replay_dict(ctx, s, ([a], ["-"])), found_input=False)
-    nontrivial = sum(1 for s, hr in zip(allsc, allres) if any(l.startswith("copy ok") or l.startswith("copy NULL") for l in hr[0]))
-    copies_ok = sum(1 for s, hr in zip(allsc, allres) if any(l.startswith("copy ok") for l in hr[0]))
-    copies_null = sum(1 for s, hr in zip(allsc, allres) if any(l.startswith("copy NULL") for l in hr[0]))
+    nontrivial = sum(1 for s, hr in zs(allsc, allres) if any(l.startswith("copy ok") or l.startswith("copy NULL") for l in hr[0]))
+    copies_ok = sum(1 for s, hr in zs(allsc, allres) if any(l.startswith("copy ok") for l in hr[0]))
+    copies_null = sum(1 for s, hr in zs(allsc, allres) if any(l.startswith("copy NULL") for l in hr[0]))
+    extra_copies = {"copy of a copy (recopy)": sum(1 for _, hr in zs(scs, hres) for a_ in hr[0] if a_.startswith("recopy ok")),
+                    "further copy while original and copy are alive (copydrop)": sum(1 for _, hr in zs(scs, hres) for a_ in hr[0] if a_.startswith("copydrop ok")),
+                    "xattr-writer copy inside an open begin/end block": sum(1 for s_, hr in zs(scs, hres) if getattr(s_, "xwr_open", False) and hr[1][0] == "ok" and any(a_.startswith("copy ok") for a_ in hr[0]))}
+    refused = {k: sum(1 for s_, hr in zs(scs, hres) if s_.kind == k and hr[1][0] == "ok" and any(l.startswith("copy NULL") for l in hr[0])) for k in ("wfile", "nocopy")}
     # floors: a part that evaluated nothing is a failure of the check, not a pass
-    for name, val in (("table answers", ttotal), ("successful copies", copies_ok), ("failed copies", copies_null), ("twin comparisons", pair_checks),
-                      ("view relations", view_checks), ("comparisons with a directory reader without history", fresh_checks)):
+    for name, val in list(extra_copies.items()) + [("sqfs_copy of a file opened for writing (hook refuses)", refused["wfile"]), ("sqfs_copy of an object whose copy hook is NULL", refused["nocopy"]), ("table answers", ttotal), ("successful copies", copies_ok), ("failed copies", copies_null), ("twin comparisons", pair_checks),
+                      ("view relations", view_checks), ("comparisons with a directory reader without history", fresh_checks)]:
         if val <= 0:
             floor_problems.append("the check evaluated no %s" % name)
     if floor_problems:
         raise vlib.CheckFailure("; ".join(floor_problems)[:1500])
     ctx.cov.update({
-        "evaluations": sum(len(s.lines) for s in allsc) + sum(len(s.lines) for s in tscs) + sum(len(u.lines) for u in us),
-        "unit_scenarios": len(us), "units": ustat, "directory_copies_asked_for_high_references": hi,
+        "evaluations": sum(len(s.lines) for s in allsc) + sum(len(s.lines) for s in tscs) + sum(len(u.lines) for u in us) + pool_cov["answer_lines"],
+        "unit_scenarios": len(us), "units": ustat, "default_configuration_pool_allocator": pool_cov, "directory_copies_asked_for_high_references": hi,
         "distinct_nontrivial": nontrivial,
         "rule": "seeded scenarios per kind (5 compressors x {compress with random level/window/flags, uncompress}, id/fragment table, read-only file, "
                 "file opened for writing (copy refused), xattr writer, meta/dir/data/xattr reader over images made by the working tree's gensquashfs: %s, "
@@ -1348,10 +1685,11 @@ def run(ctx):
                 "non-trivial = scenario that reached sqfs_copy" % (
                     ", ".join("%s/%d" % sp for sp in specs), MANYX),
         "scenarios": len(allsc), "alloc_failure_variants": len(fscs), "twin_comparisons": pair_checks, "fresh_reader_comparisons": fresh_checks, "view_relations_checked": view_checks,
-        "copies_ok": copies_ok, "copies_null": copies_null, "successful_operations_on_copies": okcount,
+        "copies_ok": copies_ok, "copies_null": copies_null, "successful_operations_on_copies": okcount, "further_copies": extra_copies, "refused_copies": refused,
+        "compressor_copies_by_mode_and_configuration": {"%s %s" % k: v for k, v in sorted(comp_modes.items())},
         "table_answers_compared_with_model": ttotal, "copystate": cstat, "descriptions_vs_probe": dfacts,
         "scenarios_per_kind": stats["kinds"], "real_outcomes": stats["outcomes"], "classified": stats["findings"],
-        "samples": [{"scenario": s.text()[:600], "exit": hr[1]} for s, hr in list(zip(allsc, allres))[:2] + list(zip(allsc, allres))[-1:]],
+        "samples": [{"scenario": s.text()[:600], "exit": hr[1]} for s, hr in list(zs(allsc, allres))[:2] + list(zs(allsc, allres))[-1:]],
         "disagreements_checked": sum(stats["findings"].values()) + len(tbad) + len(cbad) + len(dprob) + len(ubad),
     })
     return ctx.finish(LEVEL, trusted_extra=[
@@ -1367,19 +1705,27 @@ def run(ctx):
 def replay(ctx, path):
     import random
     body = json.loads(open(path).read())
+    if "replay" not in body and "lines" in body:          # a corpus entry (corpus/C19/*.json) is replayable as it is
+        body = {"seed": 0, "replay": {"entry": body, "config": body.get("config", "malloc")}}
     rp = body.get("replay", {})
     if "entry" not in rp:
         print("replay file names a broken obligation, no input to replay:", json.dumps(rp)[:500])
         return 1
     ctx.lean_build(["sqfsmodel"])
     harness, gen = build(ctx)
+    pool = rp.get("config") == "pool" or bool(rp["entry"].get("pool"))
+    if pool:
+        harness = build_pool(ctx)["asan"]       # /repo's default configuration (pool allocator)
     if rp["entry"].get("unit"):
         e = rp["entry"]
         u = Unit("replay", e["kind"], e["args"])
         u.lines, u.same = e["lines"], [tuple(p) for p in e["same"]]
         ures = run_harness(ctx, harness, [u])
         print(u.text()); print("\n".join(ures[0][0])); print("exit", " ".join(ures[0][1]))
-        ubad, _ = check_units(ctx, [u], ures)
+        ubad, ust = check_units(ctx, [u], ures, mode="unit-pool" if pool else "unit", pool=pool)
+        if ust["mmap_leaks"]:
+            print("replay: reproduces -> key=pool:rbt:%s: the pool created by rbtree_copy is leaked when the mmap of its first block fails" % MMAP_LEAK)
+            return 1
         if not ubad:
             print("replay: every answer is what the model predicts (no violation)")
             return 0
@@ -1392,6 +1738,9 @@ def replay(ctx, path):
     print(s.text())
     print("\n".join(res[0][0]))
     print("exit", " ".join(res[0][1]))
+    if pool and mmap_leak_only(s, res[0]):
+        print("replay: reproduces -> key=pool:%s:%s: the pool created by rbtree_copy is leaked when the mmap of its first block fails" % (s.kind, MMAP_LEAK))
+        return 1
     v = judge(ctx, s, res[0], var[0], {"outcomes": {}})
     if v is None:
         print("replay: the scenario now behaves as the model of the repaired hooks predicts (no violation)")
